@@ -1216,8 +1216,9 @@ impl ObjectFile {
         let mut second = a_obj.block_map.iter();
         second.next();
         if std::iter::zip(first, second).any(|((&a_st, a_bl), (&b_st, b_bl))| {
-            let ar = a_st .. (a_st + a_bl.len() as u16);
-            let br = b_st .. (b_st + b_bl.len() as u16);
+            // (widened: a block read from disk may reach past xFFFF)
+            let ar = usize::from(a_st) .. (usize::from(a_st) + a_bl.len());
+            let br = usize::from(b_st) .. (usize::from(b_st) + b_bl.len());
             ranges_overlap(ar, br)
         }) {
             return Err(AsmErr::new(AsmErrKind::OverlappingBlocks, []));
